@@ -369,6 +369,9 @@ def run(ctx):
         "harness/checks/c15.py converters (Polar dumps -> Coq terms), interpreter of dumped programs and "
         "joint-law enumerator (exact Fractions)",
         "generated case files evaluated by vm_compute in the kernel (no extraction)",
+        "C15_sampling_time_limit and C15_sampling_time_program_limit use Coquelicot/Reals: axioms "
+        "ClassicalDedekindReals.sig_forall_dec and FunctionalExtensionality.functional_extensionality_dep; every "
+        "other C15 theorem is closed under the global context",
     ]
     ctx.assumptions += [
         "probabilities are decimal literals with <= 6 significant digits read as exact rationals; Python float "
@@ -536,6 +539,8 @@ def run(ctx):
                           f"{': ' + tgt if tgt else ' (model of __add_cpt__ disagrees)'}", no_input=tgt is None)
         else:
             ctx.coverage["discharged"] += 1
+        if "net_unrep" in c or not v.get("network", False) or tgt is not None:
+            continue      # the programs generated from a wrong network add nothing
         # ---- generated programs
         oracle = None
         for j, (q, g) in enumerate(zip(c["queries"], r["gen"])):
@@ -550,6 +555,10 @@ def run(ctx):
                     ctx.violation(f"codegen:refused:{kind}", replay_of(c, query=q, polar=g.get("exc")),
                                   "CodeGenerator's topological sort refuses (assert) a network the model sorts",
                                   no_input=kind != "valid")
+                continue
+            if "unrep" in g and g.get("stage") in ("codegen", "query") and kind != "reserved-name":
+                ctx.violation(f"codegen:exception:{sig_q}:{kind}", replay_of(c, query=q, polar=g.get("exc"), tb=g.get("tb")),
+                              f"CodeGenerator fails on an accepted network: {g.get('exc')}", no_input=not intended)
                 continue
             if "unrep" in g:
                 if kind == "reserved-name":
@@ -584,6 +593,27 @@ def run(ctx):
                     diff = [(a, str(law.get(a, 0)), str(oracle.get(a, 0))) for a in sorted(set(law) | set(oracle))
                             if law.get(a, 0) != oracle.get(a, 0)][:3]
                     sem_bad = diff
+            if sem_bad is None and intended and tgt is None and q["type"] != "none" and len(oracle) <= 600 \
+                    and not g["float_last"]:
+                # the query statements, by the interpreter on Polar's own program: two iterations
+                m = len(c["net"].names)
+                d2 = program_law(g["pprog"], m + 2, iters=2)
+                ev = q["evidence"]
+                pe = sum(p for a, p in oracle.items() if all(a[x] == y for x, y in ev))
+                if q["type"] == "exact":
+                    num = sum(p * a[q["target"]] ** q["power"] for a, p in oracle.items()
+                              if all(a[x] == y for x, y in ev))
+                    got = (sum(w * st[m + 1] ** q["power"] for st, w in d2.items()), sum(w * st[m] for st, w in d2.items()))
+                    want = (num, pe)
+                    names = "(E[inf^k], E[ind]) after 2 iterations"
+                else:
+                    got = sum(w * st[m] for st, w in d2.items())
+                    want = 1 + (1 - pe) + (1 - pe) ** 2
+                    names = "E[count] after 2 iterations"
+                if got != want:
+                    ctx.violation(f"query:{q['type']}:moments", replay_of(c, query=q, code=g["code"], got=str(got), want=str(want)),
+                                  f"query \"{q['q']}\": {names} of the generated program is {got}, the joint law gives {want}")
+                    continue
             if sem_bad is not None:
                 a, pl, tr = sem_bad[0]
                 tiny = all(abs(Fraction(x) - Fraction(y)) < Fraction(1, 10 ** 12) for _, x, y in sem_bad)
